@@ -3,14 +3,17 @@ package main
 import (
 	"math/rand"
 	"bytes"
+	"encoding/binary"
 	"fmt"
+	"io"
 	"strings"
 
 	"github.com/Eyevinn/mp4ff/bits"
+	"github.com/Eyevinn/mp4ff/hevc"
 	"github.com/Eyevinn/mp4ff/mp4"
 )
 
-const boxRule = "cases = every distinct box (any nesting level, up to 64 kB) of the repository's media files, structured mutations of each (version 0/1/2/3/255, flag bits, field bytes to 0/1/7f/80/ff/random, truncation and extension with the size field fixed up, 16-byte large-size header), whole files through DecodeFile/DecodeFileSR and both encoders in box-tree and segment mode; each accepted byte string goes through DecodeBox, DecodeBoxSR, Encode, EncodeSW, Size, Info and a second decode/encode cycle; non-trivial = distinct accepted byte string"
+const boxRule = "cases = every distinct box (any nesting level, up to 64 kB) of the repository's media files, structured mutations of each (version 0/1/2/3/255, flag bits, field bytes to 0/1/7f/80/ff/random, truncation and extension with the size field fixed up, 16-byte large-size header), whole files through DecodeFile/DecodeFileSR and both encoders in box-tree and segment mode; each accepted byte string goes through DecodeBox, DecodeBoxSR, Encode, EncodeSW, Size, Info and a second decode/encode cycle; files are also decoded under every decode-flag configuration (ISM, start-on-moof, both) and, with a random-access index (mfra with 0..n tfra children + mfro) appended, under all of them; lazily decoded files get their mdat payloads back through SetData (same / shorter / longer / empty); mdat boxes go through random histories of their public mutators (AddSampleData, AddSampleDataPart, SetData, SetLazyDataSize incl. the 2^32 boundary) from new / decoded / lazily decoded start states, with each encoder running first on an identically built twin; avcC / hvcC records (hand-serialised with 0..3 NAL units per array, and built through CreateAvcC / CreateHvcC / NewNaluArray / SetAVCDescriptor / SetHEVCDescriptor with parameter-set lists of length 0..2) and meta boxes in ISO and QuickTime style (alone and inside udta); non-trivial = distinct accepted byte string"
 
 func init() {
 	for _, p := range []string{"C01", "C02", "C03"} {
@@ -151,6 +154,27 @@ func genBoxProps(c *Ctx, which string) {
 			checkHistory(c, which, genHistory(c))
 		}
 	}
+	// further families (all after the generators above, whose random stream they leave unchanged)
+	genMetaStyles(c, which, seeds)
+	for i, d := range files {
+		if q, n := quickTimeMetaFile(d); n > 0 {
+			checkWholeFile(c, which, q, fmt.Sprintf("%s with its %d meta box(es) in QuickTime style", names[i], n))
+			c.Count("quicktime-meta-file")
+		}
+	}
+	genConfRecords(c, which, seeds)
+	genIndexedFiles(c, which, files, names)
+	if which != "C01" {
+		genMdatHistories(c, which)
+		for i, d := range files {
+			checkLazySetData(c, which, d, names[i])
+		}
+		for it := 0; it < c.N(40, 400); it++ {
+			if d, name := genMixedProtection(c.R); d != nil {
+				checkLazySetData(c, which, d, fmt.Sprintf("mixed-protection(%s)", name))
+			}
+		}
+	}
 }
 
 func fileSummary(d []byte) string {
@@ -274,6 +298,43 @@ func checkWholeFile(c *Ctx, which string, d []byte, name string) {
 		var bs2 bytes.Buffer
 		if p := safe(func() { _ = fs.Encode(&bs2) }); p != "" || !bytes.Equal(bs2.Bytes(), bw.Bytes()) {
 			fail("C03", fmt.Sprintf("decoders-reencode-mode%d", mi), "DecodeFile and DecodeFileSR results encode to different bytes", p, "")
+		}
+	}
+	// decode configurations: whatever flags the file is decoded with, an accepted file re-encodes (box-tree mode) to the
+	// input outside the don't-care list, is a fixed point, and Size() == bytes written
+	for _, fl := range []mp4.DecFileFlags{mp4.DecISMFlag, mp4.DecStartOnMoof, mp4.DecISMFlag | mp4.DecStartOnMoof} {
+		var ff *mp4.File
+		var ef error
+		if p := safe(func() { ff, ef = mp4.DecodeFile(bytes.NewReader(d), mp4.WithDecodeFlags(fl)) }); p != "" || ef != nil || ff == nil {
+			c.Count("decode-flags-rejected")
+			continue
+		}
+		c.Count("decode-flags-accepted")
+		ff.FragEncMode = mp4.EncModeBoxTree
+		var sz uint64
+		var bf bytes.Buffer
+		var ee error
+		pe := safe(func() { sz = ff.Size(); ee = ff.Encode(&bf) })
+		if pe != "" || ee != nil {
+			fail("C01", fmt.Sprintf("flags%d-encode-fails", fl), fmt.Sprintf("a file decoded with decode flags %d fails to encode in box-tree mode", fl), fmt.Sprintf("%v %s", ee, pe), "")
+			continue
+		}
+		if !bytes.Equal(maskDontCare(bf.Bytes()), maskDontCare(d)) {
+			fail("C01", fmt.Sprintf("flags%d-not-lossless", fl), fmt.Sprintf("box-tree re-encoding of the file decoded with decode flags %d differs from the input outside the don't-care list (len %d -> %d, %d top-level boxes)", fl, len(d), bf.Len(), len(ff.Children)), "", "")
+		}
+		if uint64(bf.Len()) != sz {
+			fail("C02", fmt.Sprintf("flags%d-size", fl), fmt.Sprintf("File.Size() != bytes written for a file decoded with decode flags %d", fl), fmt.Sprintf("Size()=%d written=%d", sz, bf.Len()), "")
+		}
+		var f2 *mp4.File
+		var e2 error
+		if p2 := safe(func() { f2, e2 = mp4.DecodeFile(bytes.NewReader(bf.Bytes()), mp4.WithDecodeFlags(fl)) }); p2 != "" || e2 != nil {
+			fail("C01", fmt.Sprintf("flags%d-redecode", fl), fmt.Sprintf("the re-encoded file is not accepted again with decode flags %d", fl), fmt.Sprintf("%v %s", e2, p2), "")
+		} else {
+			f2.FragEncMode = mp4.EncModeBoxTree
+			var b2 bytes.Buffer
+			if p := safe(func() { _ = f2.Encode(&b2) }); p != "" || !bytes.Equal(b2.Bytes(), bf.Bytes()) {
+				fail("C01", fmt.Sprintf("flags%d-not-fixed-point", fl), fmt.Sprintf("second encode differs from the first (decode flags %d)", fl), "", "")
+			}
 		}
 	}
 	// lazy-mdat decode: same sizes as in-memory decode (C02 at file level, 32- and 64-bit mdat headers)
@@ -498,4 +559,870 @@ func genMixedProtection(r *rand.Rand) ([]byte, string) {
 		return nil, ""
 	}
 	return out, name
+}
+
+// =====================================================================================================================
+// Further input families: structures built through the public constructors (checked directly, before any decode),
+// multi-step histories of the mdat mutators, decode configurations, hand-serialised boxes with unusual-but-valid shapes.
+
+type sizedEncoder interface {
+	Size() uint64
+	Encode(w io.Writer) error
+	EncodeSW(sw bits.SliceWriter) error
+}
+
+// checkSizeFieldsAll: checkSizeFields on each top-level box of enc, and the top-level boxes tile enc
+func checkSizeFieldsAll(enc []byte) string {
+	pos := 0
+	for pos < len(enc) {
+		if pos+8 > len(enc) {
+			return fmt.Sprintf("%d stray bytes after the last top-level box", len(enc)-pos)
+		}
+		sz := int(binary.BigEndian.Uint32(enc[pos:]))
+		if sz == 1 && pos+16 <= len(enc) {
+			sz = int(binary.BigEndian.Uint64(enc[pos+8:]))
+		}
+		if sz < 8 || pos+sz > len(enc) {
+			return fmt.Sprintf("top-level box %q at %d has size field %d, but only %d bytes remain", enc[pos+4:pos+8], pos, sz, len(enc)-pos)
+		}
+		if msg := checkSizeFields(enc[pos : pos+sz]); msg != "" {
+			return msg
+		}
+		pos += sz
+	}
+	return ""
+}
+
+// checkBuilt: the C02 / C03 clauses on a structure built through the public API. build returns a fresh, identically
+// built structure on every call (nil: the API refused the arguments), so that each encoder can be the first method
+// that runs on it. Returns the io.Writer encoding (nil when it failed) for the decode-side checks.
+func checkBuilt(c *Ctx, which, kind, req string, build func() sizedEncoder) []byte {
+	fail := func(prop, clause, what, got, exp string) {
+		if prop == which {
+			c.Fail(fmt.Sprintf("%s-built-%s-%s", prop, kind, clause), what, req, clip(got), clip(exp))
+		}
+	}
+	a, b := build(), build()
+	if a == nil || b == nil {
+		c.Count("built-" + kind + "-refused")
+		return nil
+	}
+	c.Count("built-" + kind)
+	var sizeBefore, sizeAfter uint64
+	var eW, eS, eS2 encResult
+	eW.panic = safe(func() {
+		sizeBefore = a.Size()
+		var buf bytes.Buffer
+		eW.err = a.Encode(&buf)
+		eW.out = buf.Bytes()
+		sizeAfter = a.Size()
+	})
+	// the twin: EncodeSW runs first, into a buffer whose capacity does not come from Size()
+	capacity := 1 << 16
+	if eW.panic == "" && eW.err == nil {
+		capacity = len(eW.out) + 64
+	}
+	var sizeTwin uint64
+	eS.panic = safe(func() {
+		sw := bits.NewFixedSliceWriter(capacity)
+		eS.err = b.EncodeSW(sw)
+		eS.out = sw.Bytes()
+		sizeTwin = b.Size()
+	})
+	okW, okS := eW.panic == "" && eW.err == nil, eS.panic == "" && eS.err == nil
+	if okW != okS {
+		fail("C03", "encoders-outcome", "Encode and EncodeSW on identically built structures: one fails, the other does not", fmt.Sprintf("Encode: %v %s | EncodeSW: %v %s", eW.err, eW.panic, eS.err, eS.panic), "")
+	} else if okW && !bytes.Equal(eW.out, eS.out) {
+		fail("C03", "encoders-bytes", "Encode and EncodeSW on identically built structures produce different bytes", hx(eS.out), hx(eW.out))
+	}
+	if okW {
+		if uint64(len(eW.out)) != sizeBefore {
+			fail("C02", "size-before", "Size() before Encode != bytes written", fmt.Sprintf("Size()=%d written=%d", sizeBefore, len(eW.out)), "")
+		}
+		if uint64(len(eW.out)) != sizeAfter {
+			fail("C02", "size-after", "Size() after Encode != bytes written", fmt.Sprintf("Size()=%d written=%d", sizeAfter, len(eW.out)), "")
+		}
+		if msg := checkSizeFieldsAll(eW.out); msg != "" {
+			fail("C02", "size-field", "a header size field does not equal the length of its box: "+msg, hx(eW.out), "")
+		}
+		// the other encoder on the already encoded structure, buffer of exactly Size() bytes; and Encode once more
+		eS2.panic = safe(func() {
+			sw := bits.NewFixedSliceWriter(int(a.Size()))
+			eS2.err = a.EncodeSW(sw)
+			eS2.out = sw.Bytes()
+		})
+		if eS2.panic != "" || eS2.err != nil || !bytes.Equal(eS2.out, eW.out) {
+			fail("C03", "encoders-second", "after a first Encode, EncodeSW into a buffer of Size() bytes fails or produces different bytes", fmt.Sprintf("%v %s %s", eS2.err, eS2.panic, hx(eS2.out)), hx(eW.out))
+		}
+		var again bytes.Buffer
+		if p := safe(func() { _ = a.Encode(&again) }); p != "" || !bytes.Equal(again.Bytes(), eW.out) {
+			fail("C02", "encode-twice", "encoding the same structure twice yields different bytes", hx(again.Bytes()), hx(eW.out))
+		}
+	}
+	if okS {
+		if uint64(len(eS.out)) != sizeTwin {
+			fail("C02", "size-sw", "EncodeSW reports success but bytes written != Size()", fmt.Sprintf("Size()=%d written=%d", sizeTwin, len(eS.out)), "")
+		}
+		if msg := checkSizeFieldsAll(eS.out); msg != "" {
+			fail("C02", "size-field-sw", "a header size field written by EncodeSW does not equal the length of its box: "+msg, hx(eS.out), "")
+		}
+	}
+	c.Eval(req)
+	if !okW {
+		return nil
+	}
+	return eW.out
+}
+
+// ---- meta boxes in both styles
+
+func rawBoxBytes(typ string, payload []byte) []byte {
+	out := make([]byte, 8, 8+len(payload))
+	binary.BigEndian.PutUint32(out, uint32(8+len(payload)))
+	copy(out[4:], typ)
+	return append(out, payload...)
+}
+
+// genMetaStyles: every meta box of the corpus in its own style and converted to the other one (ISO: version/flags word
+// then children; QuickTime: children only, hdlr first), plus synthesised ones (hdlr with a random handler, 0..3 small
+// children taken from the corpus or of a type the library does not know), each alone and as the child of a udta box.
+func genMetaStyles(c *Ctx, which string, seeds []seedBox) {
+	r := c.R
+	var kids [][]byte
+	for _, sb := range seeds {
+		t := string(sb.bs[4:8])
+		if len(sb.bs) <= 300 && (t == "ilst" || t == "free" || t == "skip" || t == "dinf" || t == "uuid") {
+			kids = append(kids, sb.bs)
+		}
+	}
+	kids = append(kids, rawBoxBytes("keys", []byte{0, 0, 0, 0, 0, 0, 0, 1, 0, 0, 0, 12, 'm', 'd', 't', 'a', 't', 'i', 't', 'l'}))
+	type metaCase struct {
+		children []byte // hdlr first
+		verFlags []byte
+		origin   string
+	}
+	var cases []metaCase
+	for _, sb := range seeds {
+		if string(sb.bs[4:8]) != "meta" || binary.BigEndian.Uint32(sb.bs) == 1 || len(sb.bs) < 20 {
+			continue
+		}
+		pl := sb.bs[8:]
+		switch {
+		case string(pl[4:8]) == "hdlr":
+			cases = append(cases, metaCase{pl, []byte{0, 0, 0, 0}, sb.origin})
+		case len(pl) >= 12 && string(pl[8:12]) == "hdlr":
+			cases = append(cases, metaCase{pl[4:], pl[:4], sb.origin})
+		}
+	}
+	for it := 0; it < c.N(40, 600); it++ {
+		name := []string{"", "x", "Apple metadata handler", "händler"}[r.Intn(4)]
+		hp := make([]byte, 24, 24+len(name)+1)
+		copy(hp[8:12], []string{"mdta", "mdir", "ID32", "pict", "meta"}[r.Intn(5)])
+		hp = append(append(hp, name...), 0)
+		ch := rawBoxBytes("hdlr", hp)
+		for n := r.Intn(4); n > 0; n-- {
+			ch = append(ch, kids[r.Intn(len(kids))]...)
+		}
+		cases = append(cases, metaCase{ch, []byte{byte(r.Intn(2)), 0, 0, byte(r.Intn(2))}, fmt.Sprintf("synthesised-meta#%d", it)})
+	}
+	for _, mc := range cases {
+		for _, style := range []string{"iso", "quicktime"} {
+			var box []byte
+			if style == "iso" {
+				box = rawBoxBytes("meta", append(append([]byte{}, mc.verFlags...), mc.children...))
+			} else {
+				box = rawBoxBytes("meta", mc.children)
+			}
+			for _, wrap := range []bool{false, true} {
+				bs, origin := box, style+"-style meta from "+mc.origin
+				if wrap {
+					bs, origin = rawBoxBytes("udta", box), origin+" in udta"
+				}
+				v := checkBoxBytes(c, which, bs, origin)
+				key := ""
+				if v.accepted {
+					key = string(bs)
+					c.Count("meta-" + style)
+				}
+				c.Eval(key)
+			}
+		}
+	}
+}
+
+// quickTimeMetaFile rewrites every ISO-style meta box of d whose first child is the hdlr box into QuickTime style (the
+// version/flags word removed, the size fields of the box and of its ancestors reduced by 4); n = boxes rewritten.
+func quickTimeMetaFile(d []byte) (out []byte, n int) {
+	out = d
+	for {
+		var bx []rawBox
+		walkBoxes(out, 0, "", &bx)
+		hit := -1
+		for i, b := range bx {
+			if b.typ == "meta" && b.hl == 8 && b.size >= 24 && string(out[b.start+16:b.start+20]) == "hdlr" && string(out[b.start+12:b.start+16]) != "hdlr" {
+				hit = i
+			}
+		}
+		if hit < 0 {
+			return out, n
+		}
+		m := bx[hit]
+		q := append([]byte{}, out...)
+		for _, b := range bx {
+			if b.start <= m.start && m.start+m.size <= b.start+b.size {
+				if b.hl != 8 {
+					return out, n
+				}
+				binary.BigEndian.PutUint32(q[b.start:], uint32(b.size-4))
+			}
+		}
+		out = append(q[:m.start+8], q[m.start+12:]...)
+		n++
+	}
+}
+
+// ---- AVC / HEVC decoder configuration records
+
+func randNalus(r *rand.Rand, pool [][]byte, n int) [][]byte {
+	var out [][]byte
+	for ; n > 0; n-- {
+		if len(pool) > 0 && r.Intn(3) > 0 {
+			out = append(out, pool[r.Intn(len(pool))])
+		} else {
+			b := make([]byte, 1+r.Intn(12))
+			r.Read(b)
+			out = append(out, b)
+		}
+	}
+	return out
+}
+
+func naluListStr(l [][]byte) string {
+	var s []string
+	for _, n := range l {
+		s = append(s, hx(n))
+	}
+	return "[" + strings.Join(s, ",") + "]"
+}
+
+func serialiseNalus(out []byte, l [][]byte) []byte {
+	for _, n := range l {
+		out = append(out, byte(len(n)>>8), byte(len(n)))
+		out = append(out, n...)
+	}
+	return out
+}
+
+// genConfRecords: (a) hvcC / avcC boxes serialised by the harness: random general part (reserved bits as the standard
+// prescribes), 0..4 arrays of 0..3 NAL units each (an array without NAL units is valid, and is what the API produces for
+// an empty parameter-set list); (b) the same boxes, and whole init segments, built through the public constructors with
+// parameter-set lists of length 0..2 taken from the corpus' own configuration records.
+func genConfRecords(c *Ctx, which string, seeds []seedBox) {
+	r := c.R
+	var hVPS, hSPS, hPPS, aSPS, aPPS [][]byte
+	for _, sb := range seeds {
+		switch string(sb.bs[4:8]) {
+		case "hvcC":
+			if d := decReader(sb.bs); d.panic == "" && d.err == nil {
+				if h, ok := d.box.(*mp4.HvcCBox); ok {
+					hVPS = append(hVPS, h.GetNalusForType(hevc.NALU_VPS)...)
+					hSPS = append(hSPS, h.GetNalusForType(hevc.NALU_SPS)...)
+					hPPS = append(hPPS, h.GetNalusForType(hevc.NALU_PPS)...)
+				}
+			}
+		case "avcC":
+			if d := decReader(sb.bs); d.panic == "" && d.err == nil {
+				if a, ok := d.box.(*mp4.AvcCBox); ok {
+					aSPS = append(aSPS, a.SPSnalus...)
+					aPPS = append(aPPS, a.PPSnalus...)
+				}
+			}
+		}
+	}
+	c.Note(fmt.Sprintf("parameter-set pool from the corpus: hevc vps/sps/pps %d/%d/%d, avc sps/pps %d/%d", len(hVPS), len(hSPS), len(hPPS), len(aSPS), len(aPPS)))
+	feed := func(bs []byte, origin string) {
+		v := checkBoxBytes(c, which, bs, origin)
+		key := ""
+		if v.accepted {
+			key = string(bs)
+			c.Count("confrec-accepted-" + v.typ)
+		}
+		c.Eval(key)
+	}
+	// (a) serialised by the harness
+	for it := 0; it < c.N(300, 6000); it++ {
+		g := make([]byte, 22)
+		r.Read(g)
+		g[0] = 1
+		g[13] |= 0xf0
+		g[15] |= 0xfc
+		g[16] |= 0xfc
+		g[17] |= 0xf8
+		g[18] |= 0xf8
+		g[21] |= 3
+		na := r.Intn(5)
+		pl := append(g, byte(na))
+		for k := 0; k < na; k++ {
+			typ := []byte{32, 33, 34, 39, 40}[r.Intn(5)]
+			nn := r.Intn(4)
+			pl = append(pl, byte(r.Intn(2))<<7|typ, 0, byte(nn))
+			pl = serialiseNalus(pl, randNalus(r, append(append(append([][]byte{}, hVPS...), hSPS...), hPPS...), nn))
+		}
+		feed(rawBoxBytes("hvcC", pl), fmt.Sprintf("serialised hvcC#%d (%d arrays)", it, na))
+	}
+	for it := 0; it < c.N(300, 6000); it++ {
+		prof := []byte{66, 77, 88, 100, 110, 122, 244, 44, 83, 86, 118, 128, 138, 139, 134, 135, byte(r.Intn(256))}[r.Intn(17)]
+		ns, np := r.Intn(4), r.Intn(4)
+		pl := []byte{1, prof, byte(r.Intn(256)), byte(r.Intn(256)), 0xff, 0xe0 | byte(ns)}
+		pl = serialiseNalus(pl, randNalus(r, aSPS, ns))
+		pl = append(pl, byte(np))
+		pl = serialiseNalus(pl, randNalus(r, aPPS, np))
+		if prof != 66 && prof != 77 && prof != 88 && r.Intn(6) > 0 {
+			pl = append(pl, 0xfc|byte(r.Intn(4)), 0xf8|byte(r.Intn(8)), 0xf8|byte(r.Intn(8)), 0)
+		}
+		feed(rawBoxBytes("avcC", pl), fmt.Sprintf("serialised avcC#%d (%d sps, %d pps)", it, ns, np))
+	}
+	if which == "C01" {
+		return // the constructors are C02 / C03 territory (their encodings reach C01 through the serialised family)
+	}
+	// (b) built through the public constructors
+	pickList := func(pool [][]byte, min int) [][]byte {
+		n := min + r.Intn(3-min)
+		var l [][]byte
+		for ; n > 0 && len(pool) > 0; n-- {
+			l = append(l, pool[r.Intn(len(pool))])
+		}
+		return l
+	}
+	for it := 0; it < c.N(200, 4000); it++ {
+		if len(hSPS) > 0 {
+			vps, sps, pps := pickList(hVPS, 0), pickList(hSPS, 1), pickList(hPPS, 0)
+			cv, cs, cp, inc := r.Intn(2) == 0, r.Intn(2) == 0, r.Intn(2) == 0, r.Intn(4) > 0
+			type extra struct {
+				complete bool
+				typ      hevc.NaluType
+				nalus    [][]byte
+			}
+			var extras []extra
+			for n := r.Intn(3) / 2 * (1 + r.Intn(2)); n > 0; n-- {
+				extras = append(extras, extra{r.Intn(2) == 0, []hevc.NaluType{hevc.NALU_SEI_PREFIX, hevc.NALU_SEI_SUFFIX, hevc.NALU_VPS}[r.Intn(3)], randNalus(r, nil, r.Intn(3))})
+			}
+			req := fmt.Sprintf("built CreateHvcC vps=%s sps=%s pps=%s complete=%v/%v/%v includePS=%v", naluListStr(vps), naluListStr(sps), naluListStr(pps), cv, cs, cp, inc)
+			for _, e := range extras {
+				req += fmt.Sprintf(" +NewNaluArray(%v,%d,%s)", e.complete, e.typ, naluListStr(e.nalus))
+			}
+			out := checkBuilt(c, which, "hvcC", req, func() sizedEncoder {
+				h, err := mp4.CreateHvcC(vps, sps, pps, cv, cs, cp, inc)
+				if err != nil {
+					return nil
+				}
+				for _, e := range extras {
+					h.AddNaluArrays([]hevc.NaluArray{hevc.NewNaluArray(e.complete, e.typ, e.nalus)})
+				}
+				return h
+			})
+			if out != nil {
+				feed(out, req)
+			}
+			// the same lists through the track-level constructor: a whole init segment
+			typ := []string{"hvc1", "hev1"}[r.Intn(2)]
+			sei := randNalus(r, nil, r.Intn(3)/2)
+			req = fmt.Sprintf("built init SetHEVCDescriptor %s vps=%s sps=%s pps=%s sei=%s includePS=%v", typ, naluListStr(vps), naluListStr(sps), naluListStr(pps), naluListStr(sei), inc)
+			out = checkBuilt(c, which, "init-hevc", req, func() sizedEncoder {
+				init := mp4.CreateEmptyInit()
+				init.AddEmptyTrack(90000, "video", "und")
+				if err := init.Moov.Trak.SetHEVCDescriptor(typ, vps, sps, pps, sei, inc); err != nil {
+					return nil
+				}
+				return init
+			})
+			if out != nil {
+				checkWholeFile(c, which, out, req)
+			}
+		}
+		if len(aSPS) > 0 {
+			sps, pps := pickList(aSPS, 1), pickList(aPPS, 0)
+			inc := r.Intn(4) > 0
+			req := fmt.Sprintf("built CreateAvcC sps=%s pps=%s includePS=%v", naluListStr(sps), naluListStr(pps), inc)
+			out := checkBuilt(c, which, "avcC", req, func() sizedEncoder {
+				a, err := mp4.CreateAvcC(sps, pps, inc)
+				if err != nil {
+					return nil
+				}
+				return a
+			})
+			if out != nil {
+				feed(out, req)
+			}
+			typ := []string{"avc1", "avc3"}[r.Intn(2)]
+			req = fmt.Sprintf("built init SetAVCDescriptor %s sps=%s pps=%s includePS=%v", typ, naluListStr(sps), naluListStr(pps), inc)
+			out = checkBuilt(c, which, "init-avc", req, func() sizedEncoder {
+				init := mp4.CreateEmptyInit()
+				init.AddEmptyTrack(90000, "video", "und")
+				if err := init.Moov.Trak.SetAVCDescriptor(typ, sps, pps, inc); err != nil {
+					return nil
+				}
+				return init
+			})
+			if out != nil {
+				checkWholeFile(c, which, out, req)
+			}
+		}
+	}
+}
+
+// ---- files with a random-access index at the end
+
+// appendMfra returns d followed by an mfra box with ntfra tfra children (one entry per top-level moof of d, or every
+// second one) and the closing mfro. Serialised by the harness.
+func appendMfra(r *rand.Rand, d []byte, ntfra int) ([]byte, string) {
+	var bx []rawBox
+	walkBoxes(d, 0, "", &bx)
+	var moofs []uint64
+	var ids []uint32
+	for _, b := range bx {
+		if b.path == "/moof" {
+			moofs = append(moofs, uint64(b.start))
+		}
+		if b.path == "/moof/traf/tfhd" && b.size >= b.hl+8 {
+			id := binary.BigEndian.Uint32(d[b.start+b.hl+4:])
+			seen := false
+			for _, x := range ids {
+				seen = seen || x == id
+			}
+			if !seen {
+				ids = append(ids, id)
+			}
+		}
+	}
+	stride := 1 + r.Intn(2)
+	consistent := r.Intn(5) > 0
+	var body []byte
+	for i := 0; i < ntfra; i++ {
+		id := uint32(100 + i)
+		if i < len(ids) {
+			id = ids[i]
+		}
+		version := byte(r.Intn(2))
+		ls := [3]int{r.Intn(4), r.Intn(4), r.Intn(4)}
+		var ents []byte
+		n := 0
+		for k := 0; k < len(moofs); k += stride {
+			if !consistent && i > 0 && k+stride >= len(moofs) {
+				break // a later tfra that lists one entry less
+			}
+			t := uint64(k) * 90000
+			if version == 1 {
+				ents = binary.BigEndian.AppendUint64(ents, t)
+				ents = binary.BigEndian.AppendUint64(ents, moofs[k])
+			} else {
+				ents = binary.BigEndian.AppendUint32(ents, uint32(t))
+				ents = binary.BigEndian.AppendUint32(ents, uint32(moofs[k]))
+			}
+			for _, l := range ls {
+				ents = append(ents, make([]byte, l)...)
+				ents = append(ents, 1)
+			}
+			n++
+		}
+		pl := []byte{version, 0, 0, 0}
+		pl = binary.BigEndian.AppendUint32(pl, id)
+		pl = binary.BigEndian.AppendUint32(pl, uint32(ls[0]<<4|ls[1]<<2|ls[2]))
+		pl = binary.BigEndian.AppendUint32(pl, uint32(n))
+		body = append(body, rawBoxBytes("tfra", append(pl, ents...))...)
+	}
+	mfraSize := uint32(8 + len(body) + 16)
+	mfro := binary.BigEndian.AppendUint32([]byte{0, 0, 0, 0}, mfraSize)
+	body = append(body, rawBoxBytes("mfro", mfro)...)
+	out := append(append([]byte{}, d...), rawBoxBytes("mfra", body)...)
+	return out, fmt.Sprintf("+mfra{%d tfra, %d moofs, stride %d, consistent=%v}", ntfra, len(moofs), stride, consistent)
+}
+
+// genIndexedFiles: repository files (up to a size limit) and generated fragmented files, each with an mfra appended:
+// once without tfra children (the smallest index) and once with 1..3 of them.
+func genIndexedFiles(c *Ctx, which string, files [][]byte, names []string) {
+	r := c.R
+	limit := c.N(400000, 4<<20)
+	one := func(d []byte, name string) {
+		var bx []rawBox
+		walkBoxes(d, 0, "", &bx)
+		for _, b := range bx {
+			if b.path == "/mfra" {
+				return // already indexed
+			}
+		}
+		for _, n := range []int{0, 1 + r.Intn(3)} {
+			out, what := appendMfra(r, d, n)
+			checkWholeFile(c, which, out, name+what)
+			c.Count("indexed-file")
+		}
+	}
+	for i, d := range files {
+		if len(d) <= limit {
+			one(d, names[i])
+		}
+	}
+	for it := 0; it < c.N(25, 300); it++ {
+		if d, name := genMixedProtection(r); d != nil {
+			one(d, fmt.Sprintf("mixed-protection(%s)", name))
+		}
+	}
+}
+
+// ---- mdat: histories of the public mutators
+
+type mdatOp struct {
+	op string // add part set lazy | size encw encsw info
+	n  uint64
+}
+
+type mdatHist struct {
+	start  string // new dec8 dec16 lazy8 lazy16
+	startN int    // payload length of the decoded start states
+	ops    []mdatOp
+	// what the history leaves behind, tracked by the harness
+	mem, parts int
+	lazy       uint64
+}
+
+func (h *mdatHist) line() string {
+	s := fmt.Sprintf("mdat-history start=%s:%d ops=", h.start, h.startN)
+	for i, o := range h.ops {
+		if i > 0 {
+			s += ","
+		}
+		s += o.op
+		if o.op == "add" || o.op == "part" || o.op == "set" || o.op == "lazy" {
+			s += fmt.Sprintf(":%d", o.n)
+		}
+	}
+	return s
+}
+
+func patternBytes(n, salt int) []byte {
+	b := make([]byte, n)
+	for i := range b {
+		b[i] = byte(i*7 + salt)
+	}
+	return b
+}
+
+// build replays the history on a fresh box (nil: the start state could not be decoded)
+func (h *mdatHist) build() *mp4.MdatBox {
+	var m *mp4.MdatBox
+	hdr := []byte{0, 0, 0, 0, 'm', 'd', 'a', 't'}
+	if h.start == "dec16" || h.start == "lazy16" {
+		hdr = binary.BigEndian.AppendUint64([]byte{0, 0, 0, 1, 'm', 'd', 'a', 't'}, uint64(16+h.startN))
+	} else {
+		binary.BigEndian.PutUint32(hdr, uint32(8+h.startN))
+	}
+	raw := append(hdr, patternBytes(h.startN, 1)...)
+	switch h.start {
+	case "new":
+		m = &mp4.MdatBox{}
+	case "dec8", "dec16":
+		b, err := mp4.DecodeBox(0, bytes.NewReader(raw))
+		if err != nil {
+			return nil
+		}
+		m = b.(*mp4.MdatBox)
+	default:
+		b, err := mp4.DecodeBoxLazyMdat(0, bytes.NewReader(raw))
+		if err != nil {
+			return nil
+		}
+		m = b.(*mp4.MdatBox)
+	}
+	for i, o := range h.ops {
+		switch o.op {
+		case "add":
+			m.AddSampleData(patternBytes(int(o.n), i))
+		case "part":
+			m.AddSampleDataPart(patternBytes(int(o.n), i))
+		case "set":
+			m.SetData(patternBytes(int(o.n), i))
+		case "lazy":
+			m.SetLazyDataSize(o.n)
+		case "size":
+			_ = m.Size()
+		case "encw":
+			_ = m.Encode(io.Discard)
+		case "encsw":
+			_ = m.EncodeSW(bits.NewFixedSliceWriter(h.mem + h.parts + h.startN + 4096))
+		case "info":
+			_ = m.Info(io.Discard, "all:1", "", " ")
+		}
+	}
+	return m
+}
+
+var mdatLazySizes = []uint64{1<<32 - 10, 1<<32 - 9, 1<<32 - 8, 1<<32 - 1, 1 << 32, 5 << 30}
+
+func genMdatHistory(r *rand.Rand) *mdatHist {
+	h := &mdatHist{start: []string{"new", "new", "dec8", "dec16", "lazy8", "lazy16"}[r.Intn(6)]}
+	if h.start != "new" {
+		h.startN = []int{0, 1, 1 + r.Intn(60)}[r.Intn(3)]
+	}
+	if strings.HasPrefix(h.start, "dec") {
+		h.mem = h.startN
+	} else if strings.HasPrefix(h.start, "lazy") {
+		h.lazy = uint64(h.startN)
+	}
+	for n := r.Intn(7); n > 0; n-- {
+		var o mdatOp
+		switch k := r.Intn(10); {
+		case k < 2 && h.lazy == 0 && h.parts == 0:
+			o = mdatOp{"add", uint64(1 + r.Intn(40))}
+			h.mem += int(o.n)
+		case k < 3 && h.lazy == 0 && h.mem == 0:
+			o = mdatOp{"part", uint64(1 + r.Intn(40))}
+			h.parts += int(o.n)
+		case k < 5 && h.parts == 0:
+			o = mdatOp{"set", uint64(r.Intn(3) / 2 * (1 + r.Intn(60)))}
+			if r.Intn(2) == 0 {
+				o.n = uint64(1 + r.Intn(60))
+			}
+			h.mem, h.lazy = int(o.n), 0
+		case k < 7 && h.mem == 0 && h.parts == 0:
+			o = mdatOp{"lazy", uint64(1 + r.Intn(100))}
+			if r.Intn(3) == 0 {
+				o.n = mdatLazySizes[r.Intn(len(mdatLazySizes))]
+			}
+			h.lazy = o.n
+		default:
+			o = mdatOp{[]string{"size", "encw", "encsw", "info"}[r.Intn(4)], 0}
+		}
+		h.ops = append(h.ops, o)
+	}
+	return h
+}
+
+// checkMdatHistory: after the history the box is either in memory (the harness knows how many payload bytes it holds:
+// bytes written == Size(), the size field == bytes written) or lazy (the payload of the announced length is written
+// separately: header bytes + announced length == Size() == the size field); both encoders, each running first on its
+// own identically built box, agree.
+func checkMdatHistory(c *Ctx, which string, h *mdatHist) {
+	req := h.line()
+	fail := func(prop, clause, what, got, exp string) {
+		if prop == which {
+			c.Fail(fmt.Sprintf("%s-mdat-history-%s", prop, clause), what, req, clip(got), clip(exp))
+		}
+	}
+	var a, b *mp4.MdatBox
+	if p := safe(func() { a, b = h.build(), h.build() }); p != "" || a == nil || b == nil {
+		c.Count("mdat-history-unbuildable")
+		return
+	}
+	payload := h.mem + h.parts
+	var sizeBefore, sizeAfter, sizeTwin uint64
+	var eW, eS, eWb encResult
+	eW.panic = safe(func() {
+		sizeBefore = a.Size()
+		var buf bytes.Buffer
+		eW.err = a.Encode(&buf)
+		eW.out = buf.Bytes()
+		sizeAfter = a.Size()
+	})
+	eS.panic = safe(func() {
+		sw := bits.NewFixedSliceWriter(payload + 64)
+		eS.err = b.EncodeSW(sw)
+		eS.out = sw.Bytes()
+		sizeTwin = b.Size()
+		var buf bytes.Buffer
+		eWb.err = b.Encode(&buf)
+		eWb.out = buf.Bytes()
+	})
+	okW, okS := eW.panic == "" && eW.err == nil, eS.panic == "" && eS.err == nil
+	if okW != okS {
+		fail("C03", "encoders-outcome", "MdatBox.Encode and EncodeSW on identically built boxes: one fails, the other does not", fmt.Sprintf("Encode: %v %s | EncodeSW: %v %s", eW.err, eW.panic, eS.err, eS.panic), "")
+	} else if okW && !bytes.Equal(eW.out, eS.out) {
+		fail("C03", "encoders-bytes", "MdatBox.Encode and EncodeSW on identically built boxes produce different bytes", clipHex(eS.out), clipHex(eW.out))
+	}
+	if okS && (eWb.err != nil || !bytes.Equal(eWb.out, eS.out)) {
+		fail("C03", "encoders-second", "after a first EncodeSW, Encode fails or produces different bytes", fmt.Sprintf("%v %s", eWb.err, clipHex(eWb.out)), clipHex(eS.out))
+	}
+	sizeField := func(out []byte) (field uint64, hl int) {
+		if len(out) < 8 {
+			return 0, 0
+		}
+		field, hl = uint64(binary.BigEndian.Uint32(out)), 8
+		if field == 1 && len(out) >= 16 {
+			field, hl = binary.BigEndian.Uint64(out[8:]), 16
+		}
+		return
+	}
+	for _, e := range []struct {
+		enc           string
+		r             encResult
+		before, after uint64
+	}{{"Encode", eW, sizeBefore, sizeAfter}, {"EncodeSW", eS, sizeTwin, sizeTwin}} {
+		if e.r.panic != "" || e.r.err != nil {
+			continue
+		}
+		field, hl := sizeField(e.r.out)
+		total := uint64(len(e.r.out)) // everything that belongs to the box: bytes written now + the lazy payload written separately
+		if h.lazy > 0 {
+			total += h.lazy
+		}
+		if hl == 0 || len(e.r.out) != hl+payload {
+			fail("C02", "bytes", fmt.Sprintf("%s wrote %d bytes for a box that holds %d payload bytes in memory", e.enc, len(e.r.out), payload), clipHex(e.r.out), "")
+			continue
+		}
+		if e.enc == "Encode" && total != e.before {
+			fail("C02", "size-before", "Size() before Encode != bytes of the box (written + announced lazy payload)", fmt.Sprintf("Size()=%d box=%d (lazy %d)", e.before, total, h.lazy), "")
+		}
+		if total != e.after {
+			fail("C02", "size-after", fmt.Sprintf("Size() after %s != bytes of the box (written + announced lazy payload)", e.enc), fmt.Sprintf("Size()=%d box=%d (lazy %d)", e.after, total, h.lazy), "")
+		}
+		if field != total {
+			fail("C02", "size-field", fmt.Sprintf("the size field written by %s != length of the box", e.enc), fmt.Sprintf("field=%d box=%d (lazy %d)", field, total, h.lazy), "")
+		}
+	}
+	key := ""
+	if len(h.ops) >= 2 {
+		key = req
+	}
+	c.Eval(key)
+	c.Count("mdat-history-" + h.start)
+}
+
+func clipHex(b []byte) string {
+	if len(b) > 48 {
+		return hx(b[:48]) + fmt.Sprintf("…(%d bytes)", len(b))
+	}
+	return hx(b)
+}
+
+func genMdatHistories(c *Ctx, which string) {
+	// boundary members: from every start state, a single SetLazyDataSize around the 32-bit size limit; and a single
+	// SetData of 0 / 1 / more bytes
+	for _, st := range []string{"new", "dec8", "dec16", "lazy8", "lazy16"} {
+		for _, sn := range []int{0, 24} {
+			if st == "new" && sn != 0 {
+				continue
+			}
+			base := mdatHist{start: st, startN: sn}
+			for _, n := range mdatLazySizes {
+				if strings.HasPrefix(st, "dec") && sn > 0 {
+					continue // data in memory: lazy mode is not to be entered
+				}
+				h := base
+				h.ops, h.lazy = []mdatOp{{"lazy", n}}, n
+				checkMdatHistory(c, which, &h)
+			}
+			for _, n := range []int{0, 1, 23, 24, 25} {
+				h := base
+				h.ops, h.mem = []mdatOp{{"set", uint64(n)}}, n
+				checkMdatHistory(c, which, &h)
+			}
+		}
+	}
+	for it := 0; it < c.N(3000, 60000); it++ {
+		checkMdatHistory(c, which, genMdatHistory(c.R))
+	}
+}
+
+// ---- lazily decoded files whose mdat payloads are supplied afterwards
+
+// checkLazySetData: the file is decoded in lazy-mdat mode and every mdat then gets a payload through SetData, as a tool
+// does that reads, filters or rewrites the samples: the original bytes, a prefix (samples dropped), the bytes plus
+// padding, or nothing. File, fragments and the mdat boxes themselves must then satisfy C02; the two file encoders agree.
+func checkLazySetData(c *Ctx, which string, d []byte, name string) {
+	r := c.R
+	req := "lazy+SetData " + name
+	fail := func(prop, clause, what, got, exp string) {
+		if prop == which {
+			c.Fail(fmt.Sprintf("%s-lazy-setdata-%s", prop, clause), what+" ["+name+"]", req, clip(got), clip(exp))
+		}
+	}
+	var fl *mp4.File
+	var el error
+	if p := safe(func() { fl, el = mp4.DecodeFile(bytes.NewReader(d), mp4.WithDecodeMode(mp4.DecModeLazyMdat)) }); p != "" || el != nil || fl == nil {
+		return
+	}
+	var mdats []*mp4.MdatBox
+	var want []int
+	desc := ""
+	for _, ch := range fl.Children {
+		m, ok := ch.(*mp4.MdatBox)
+		if !ok || !m.IsLazy() {
+			continue
+		}
+		from, n := m.PayloadAbsoluteOffset(), m.GetLazyDataSize()
+		if from+n > uint64(len(d)) {
+			return
+		}
+		orig := d[from : from+n]
+		var pl []byte
+		switch r.Intn(5) {
+		case 0:
+			pl = append([]byte{}, orig...)
+		case 1:
+			pl = append([]byte{}, orig[:len(orig)/2]...)
+		case 2:
+			pl = append([]byte{}, orig[:len(orig)-1]...)
+		case 3:
+			pl = append(append([]byte{}, orig...), make([]byte, 1+r.Intn(16))...)
+		default:
+			pl = []byte{}
+		}
+		desc += fmt.Sprintf(" %d->%d", n, len(pl))
+		m.SetData(pl)
+		mdats = append(mdats, m)
+		want = append(want, len(pl))
+	}
+	if len(mdats) == 0 {
+		return
+	}
+	req += " payloads" + desc
+	c.Count("lazy-setdata-file")
+	for i, m := range mdats {
+		e := encWriter(m)
+		if e.panic != "" || e.err != nil {
+			continue
+		}
+		if sz := m.Size(); uint64(len(e.out)) != sz || uint64(len(e.out)) != m.HeaderSize()+uint64(want[i]) {
+			fail("C02", "mdat-size", "an mdat that was given its payload through SetData: Size() != bytes written", fmt.Sprintf("Size()=%d written=%d payload=%d", sz, len(e.out), want[i]), "")
+		} else if msg := checkSizeFields(e.out); msg != "" {
+			fail("C02", "mdat-size-field", "an mdat that was given its payload through SetData: "+msg, "", "")
+		}
+	}
+	for _, sg := range fl.Segments {
+		for _, fr := range sg.Fragments {
+			var sz uint64
+			var buf bytes.Buffer
+			var err error
+			if p := safe(func() { sz = fr.Size(); err = fr.Encode(&buf) }); p != "" || err != nil {
+				continue
+			}
+			if uint64(buf.Len()) != sz {
+				fail("C02", "fragment-size", "Fragment.Size() != bytes written after SetData on its mdat", fmt.Sprintf("Size()=%d written=%d", sz, buf.Len()), "")
+			}
+		}
+	}
+	fl.FragEncMode = mp4.EncModeBoxTree
+	var sizeBefore uint64
+	var bw bytes.Buffer
+	var ew, esw error
+	var swOut []byte
+	pw := safe(func() { sizeBefore = fl.Size(); ew = fl.Encode(&bw) })
+	psw := safe(func() {
+		sw := bits.NewFixedSliceWriter(int(fl.Size()))
+		esw = fl.EncodeSW(sw)
+		swOut = sw.Bytes()
+	})
+	if (pw != "" || ew != nil) != (psw != "" || esw != nil) {
+		fail("C03", "encoders-outcome", "File.Encode and File.EncodeSW after SetData: one fails, the other does not", fmt.Sprintf("Encode: %v %s | EncodeSW: %v %s", ew, pw, esw, psw), "")
+	} else if pw == "" && ew == nil && !bytes.Equal(bw.Bytes(), swOut) {
+		fail("C03", "encoders-bytes", "File.Encode and File.EncodeSW after SetData produce different bytes", fmt.Sprintf("len %d", len(swOut)), fmt.Sprintf("len %d", bw.Len()))
+	}
+	if pw == "" && ew == nil {
+		if uint64(bw.Len()) != sizeBefore || uint64(bw.Len()) != fl.Size() {
+			fail("C02", "file-size", "File.Size() != bytes written after SetData on the lazily decoded mdat boxes", fmt.Sprintf("Size() before=%d after=%d written=%d", sizeBefore, fl.Size(), bw.Len()), "")
+		}
+		if msg := checkSizeFieldsFile(bw.Bytes()); msg != "" {
+			fail("C02", "file-size-field", "a header size field does not match after SetData: "+msg, "", "")
+		}
+	}
+	c.Eval(req)
 }
